@@ -1,6 +1,8 @@
 package props
 
 import (
+	"go/token"
+	"go/constant"
 	"fmt"
 	"go/ast"
 	"strings"
@@ -596,6 +598,23 @@ func c56Skippers(c *Ctx, ev *Evaluator, fnName, what, set string) bool {
 			c.Undecided(rule, construct, "skipper "+g+" is not a repository function")
 			return false
 		}
+		// the same count written with the library: len(s) - len(strings.TrimLeft(s, cutset))
+		if cut, isTrim := c56TrimLeftSkipper(c.P.Fn(g)); isTrim {
+			for v := 0; v < 256; v++ {
+				inCut := v < 128 && strings.IndexByte(cut, byte(v)) >= 0
+				if inCut != (strings.IndexByte(set, byte(v)) >= 0) {
+					c.Fail(rule, construct, c.P.Fn(g).Pos(), fmt.Sprintf("%s: byte 0x%02x: strings.TrimLeft cutset %q, RFC 9651 set %q", g, v, cut, set))
+					return false
+				}
+			}
+			for _, r := range cut {
+				if r >= 128 {
+					c.Fail(rule, construct, c.P.Fn(g).Pos(), fmt.Sprintf("%s: cutset %q contains a non-ASCII character", g, cut))
+					return false
+				}
+			}
+			continue
+		}
 		l, err := ev.FindElemLoop(g)
 		if err != nil {
 			c.Undecided(rule, construct, g+": "+err.Error())
@@ -623,4 +642,41 @@ func c56Skippers(c *Ctx, ev *Evaluator, fnName, what, set string) bool {
 	}
 	c.OK(rule, construct, "256 bytes evaluated for "+strings.Join(gs, ", "))
 	return true
+}
+
+// c56TrimLeftSkipper recognises  func g(s string) int { return len(s) - len(strings.TrimLeft(s, "cutset")) }.
+func c56TrimLeftSkipper(fn *ssa.Function) (string, bool) {
+	if fn == nil || len(fn.Blocks) != 1 || len(fn.Params) != 1 {
+		return "", false
+	}
+	ret, ok := fn.Blocks[0].Instrs[len(fn.Blocks[0].Instrs)-1].(*ssa.Return)
+	if !ok || len(ret.Results) != 1 {
+		return "", false
+	}
+	sub, ok := ret.Results[0].(*ssa.BinOp)
+	if !ok || sub.Op != token.SUB {
+		return "", false
+	}
+	lenOf := func(v ssa.Value) ssa.Value {
+		call, ok := v.(*ssa.Call)
+		if !ok {
+			return nil
+		}
+		if b, isB := call.Call.Value.(*ssa.Builtin); !isB || b.Name() != "len" || len(call.Call.Args) != 1 {
+			return nil
+		}
+		return call.Call.Args[0]
+	}
+	if lenOf(sub.X) != ssa.Value(fn.Params[0]) {
+		return "", false
+	}
+	trim, ok := lenOf(sub.Y).(*ssa.Call)
+	if !ok || CalleeName(&trim.Call) != "strings.TrimLeft" || len(trim.Call.Args) != 2 || trim.Call.Args[0] != ssa.Value(fn.Params[0]) {
+		return "", false
+	}
+	k, ok := trim.Call.Args[1].(*ssa.Const)
+	if !ok || k.Value == nil || k.Value.Kind() != constant.String {
+		return "", false
+	}
+	return constant.StringVal(k.Value), true
 }
